@@ -71,6 +71,7 @@ fn real_main() {
         "err-events" => span_ev::err_events(&args),
         "entry-events" => entry_ev::entry_events(&args),
         "depth-events" => depth_ev::depth_events(&args),
+        "depth-render" => depth_ev::depth_render(&args),
         "hist-events" => hist_ev::hist_events(&args),
         "gen-hist" => hist_ev::gen_hist(&args),
         "serde-events" => serde_ev::serde_events(&args),
